@@ -291,11 +291,13 @@ func (s *Store) Close() error {
 
 	cerr := s.Err()
 
-	err := s.index.Close()
+	// Close, and so flush, the primary before the index, same as commit, so
+	// that the index on disk never refers to unwritten primary data.
+	err := s.index.Primary.Close()
 	if err != nil {
 		cerr = err
 	}
-	if err = s.index.Primary.Close(); err != nil {
+	if err = s.index.Close(); err != nil {
 		cerr = err
 	}
 	s.fileCache.Clear()
